@@ -91,7 +91,7 @@ func errPropagated(c *ssa.Call) (bool, string) {
 						if !known || isNil {
 							continue
 						}
-						for _, rv := range ret.Results {
+						for _, rv := range retResults(ret) {
 							if types.Identical(rv.Type(), types.Universe.Lookup("error").Type()) && !isNilConst(rv) {
 								return true, ""
 							}
